@@ -560,6 +560,11 @@ func (vlog *valueLog) createVlogFile() (*logFile, error) {
 	if err != z.NewFile && err != nil {
 		return nil, err
 	}
+	// Make the directory entry of the new file durable (z.OpenMmapFile does not sync the
+	// directory for files it sizes): value pointers acknowledged under SyncWrites refer to it.
+	if err := syncDir(vlog.dirPath); err != nil {
+		return nil, err
+	}
 
 	vlog.filesLock.Lock()
 	vlog.filesMap[fid] = lf
